@@ -201,10 +201,9 @@ def call_builtin(I, live, args, kwargs, node=None):
         except _PyExc as e:
             from .native import PyExcMarker
 
-            try:
-                native_exc = e.cls(e.msg)
-            except Exception:
-                native_exc = RuntimeError(e.msg)
+            from .native import make_native_exc
+
+            native_exc = make_native_exc(e.cls, e.msg)
             I.override_log.append((qn, PyExcMarker(native_exc)))
             raise
         I.override_log.append((qn, r))
